@@ -42,6 +42,14 @@ func (w *World) RunIssues() []Issue {
 	if w.Err != nil {
 		msg := w.Err.Msg
 		switch w.Err.Kind {
+		case "budget":
+			if strings.Contains(msg, "step budget") {
+				// the family members are a handful of schema nodes: two million interpreter steps without finishing is a loop that does
+				// not make progress (the tool hangs)
+				out = append(out, Issue{Rule: "A-HANG", Construct: "the generator does not finish on a small schema", Msg: fmt.Sprintf("the interpreted generator exceeds its step budget on this family member (%s at %s; innermost frames %v): a loop that does not make progress — the tool hangs", msg, w.Err.Pos, w.Err.Stack)})
+				return out
+			}
+			out = append(out, Issue{Rule: "A-UNDECIDED", Construct: normMsg(msg), Msg: fmt.Sprintf("the abstract interpreter could not decide (%s: %s at %s; stack %v)", w.Err.Kind, msg, w.Err.Pos, w.Err.Stack)})
 		case "panic":
 			out = append(out, Issue{Rule: "A-PANIC", Construct: normMsg(msg), Msg: fmt.Sprintf("the generator panics on this schema family (%s at %s; stack %v)", msg, w.Err.Pos, w.Err.Stack)})
 		default:
